@@ -224,6 +224,29 @@ Theorem attachment_rows :
 Proof. exact attachment_rows_proof. Qed.
 Print Assumptions attachment_rows.
 
+(* createStagedFile's error paths (chmod of the staging file fails while the destination exists): the model
+   create_staged_file closes and removes the STAGING file; that the code has this shape is the table row *)
+Theorem create_staged_file_row :
+  existsb (fun r => String.eqb (f_name r) "createStagedFile" && helper_eqb (f_helper r) HStagingCtor
+                    && dkey_eqb (f_key r) DRemovesStaging) table = true.
+Proof. exact create_staged_file_row_proof. Qed.
+Print Assumptions create_staged_file_row.
+
+(* the wrong-variable shape (remove the destination instead of the staging file) on the chmod failure path:
+   the existing destination is deleted and the staging file stays *)
+Theorem remove_destination_refuted :
+  exists w', (let w0 := W refute_m0 0 [] in
+              match create_temp (single 2) fresh_path mode_new w0 with
+              | Done t w1 => match stat (single 2) 2%positive w1 with
+                             | Done fi w2 => match chmod (single 2) t (fmode fi) w2 with
+                                             | Fail _ w3 => world_of (remove (single 2) 2%positive (world_of (close (single 2) t w3)))
+                                             | Done _ w3 => w3 end
+                             | Fail _ w2 => w2 end
+              | Fail _ w1 => w1 end) = w' /\
+    wfs w' !! 2%positive = None /\ refute_m0 !! 2%positive <> None /\ wfs w' !! 3%positive = Some (File [] mode_new).
+Proof. eexists. split; [reflexivity|]. split; [vm_compute; reflexivity|]. split; [vm_compute; discriminate|vm_compute; reflexivity]. Qed.
+Print Assumptions remove_destination_refuted.
+
 (* all_file_functions_safe: in the table regenerated from the Go sources, every function that writes one
    output through a staging helper and is not one of the undeferred functions pdfcpu WriteReader / CopyFile / Write and api writeMultiFillOutputWith / writeAttachmentToPath
    (panic_unsafe) keys its
